@@ -4,6 +4,7 @@ import (
 	"crypto/md5"
 	"encoding/hex"
 	"io"
+	"sort"
 	"strings"
 	"sync"
 
@@ -70,6 +71,9 @@ func (db *Backend) ListBuckets() ([]gofakes3.BucketInfo, error) {
 			CreationDate: bucket.creationDate,
 		})
 	}
+
+	// A map has no order; S3 (and the other backends) list buckets by name:
+	sort.Slice(buckets, func(i, j int) bool { return buckets[i].Name < buckets[j].Name })
 
 	return buckets, nil
 }
